@@ -373,3 +373,62 @@ func structField(n *types.Named, field string) (*types.Var, string, bool) {
 	}
 	return nil, "", false
 }
+
+// ---- idempotence guards: the "already done" region must be pure -------------------------
+
+// Service interfaces of package swap whose methods talk to the outside world
+// (chain, wallet, lightning node, peers, disk). Validator is deliberately not in
+// the list: ValidateTx / GetCSVHeight / TxIdFromHex are pure functions of the
+// persisted record (confirmed by reading both validators).
+var impureServiceIfaces = map[string]bool{
+	"TxWatcher": true, "LightningClient": true, "Wallet": true, "Policy": true,
+	"Messenger": true, "MessengerManager": true, "Store": true, "TimeOutService": true, "RequestedSwapsStore": true,
+}
+
+func isImpureServiceCall(name string) bool {
+	if !strings.HasPrefix(name, "iface:swap.") {
+		return false
+	}
+	parts := strings.Split(strings.TrimPrefix(name, "iface:swap."), ".")
+	return len(parts) == 2 && impureServiceIfaces[parts[0]]
+}
+
+// impureCallsIn lists the calls to outside services made in the given blocks of
+// fn, directly or through in-module static callees.
+func impureCallsIn(w *an.World, fn *ssa.Function, region map[*ssa.BasicBlock]bool) []string {
+	var out []string
+	for _, call := range an.Calls(fn) {
+		if !region[call.Block()] {
+			continue
+		}
+		ci := w.Info(call)
+		if isImpureServiceCall(ci.Name) {
+			out = append(out, strings.TrimPrefix(ci.Name, "iface:")+" at "+w.Pos(call.Pos()))
+			continue
+		}
+		if ci.Static != nil && w.InModule(ci.Static) && ci.Static.Blocks != nil {
+			for _, ef := range w.Summary(ci.Static).Effects {
+				if isImpureServiceCall(ef.Name) {
+					out = append(out, strings.TrimPrefix(ef.Name, "iface:")+" (via "+w.FuncName(ci.Static)+") at "+w.Pos(call.Pos()))
+					break
+				}
+			}
+		}
+	}
+	sort.Strings(out)
+	return out
+}
+
+// alreadyDoneRegion returns the blocks of fn that can execute while the
+// persisted result field `field` ("SwapData.X") is already set: everything
+// reachable from the entry once every edge carrying the fact `field == zero` is
+// removed. The effect guarded by that fact is not in the region.
+func alreadyDoneRegion(w *an.World, fn *ssa.Function, field string) map[*ssa.BasicBlock]bool {
+	cut := cutEdges(w, fn, func(f an.Fact) bool {
+		return f.NonNum && f.Rel == "==" && (an.EqIs(f, "==", "field:"+field, `""`) || an.EqIs(f, "==", "field:"+field, "nil")) && !strings.Contains(f.L+f.R, ">")
+	})
+	if len(fn.Blocks) == 0 {
+		return nil
+	}
+	return an.ReachBlocks([]*ssa.BasicBlock{fn.Blocks[0]}, cut, nil)
+}
